@@ -23,6 +23,8 @@ Extraction "c16_model.ml"
   c16_ir_ops_src c16_post_inc c16_post_dec c16_nplus c16_arrow c16_tag_prims c16_convert
   c16_sl_cur c16_sl_to_const c16_sl_to_it c16_sl_member_equals c16_sl_facade_eq c16_sl_facade_ne c16_sl_inc c16_sl_begin_modify c16_sl_end_modify
   c16_idx_plus c16_idx_minus c16_idx_post_inc c16_idx_post_dec c16_idx_ops c16_base_of_ops c16_tr_over c16_itr_over c16_sparse_over
+  c16_assign_over c16_tag_assign_over c16_tag_convert_assign_over c16_idx_assign_over c16_tri_assign_over c16_tri_star c16_range_assign_over
+  c16_sir_to_ir c16_idx_vs_base_eq c16_idx_vs_base_diff
   c16_swap c16_alist_begin c16_alist_end c16_iterrange c16_range_for c16_sirange_at c16_sirange_size
   c16_spec_cmp c16_spec_diff c16_spec_irange c16_spec_sparse c16_spec_switch c16_spec_fold c16_steps
   Z.add Z.sub Z.mul Z.div Z.modulo Z.opp Z.of_nat Z.to_nat Z.ltb Z.leb Z.eqb Z.max Z.min.
